@@ -156,6 +156,23 @@ def run(sc, ctx):
                         bad = '%d bond types for %d bonds' % (len(a.bond_types), len(bonds))
                     if bad:
                         out['violations'].append(viol('cml-load', 'content:' + bad.split()[0], '%s: %s' % (rname, bad), sc, text=text))
+                if n >= 2 and di == 0 and not rev:
+                    # history: a loaded molecule is edited in place by supported operations (an atom adopts another type through extend with
+                    # shared ids, translate, delete); loading the same document again must still give the document
+                    a1, e1 = call(Atoms.load_cml, io.StringIO(text))
+                    if not e1:
+                        other = Atoms(atom_types=[0], atom_type_elements=[str(x) for x in a1.atom_type_elements], atom_type_labels=[str(x) for x in a1.atom_type_labels],
+                                      atom_type_masses=[float(x) for x in a1.atom_type_masses], positions=[(0.0, 0.0, 0.0)])
+                        call(a1.extend, other, offsets=(0, 0, 0, 0, 0), structure_index_map={0: n - 1})
+                        scribble(a1)
+                        for rname, fn in (('load_cml(file) after an earlier load of the same document was edited in place', lambda: Atoms.load_cml(io.StringIO(text))), ('load_cml(path) after an earlier load was edited in place', lambda: Atoms.load_cml(path))):
+                            a2, e2 = call(fn)
+                            out['evals'] += 1; out['compared'] += 1
+                            if e2:
+                                out['violations'].append(viol('cml-load', 'history-exc:' + exc_sig(e2), '%s raised %r' % (rname, e2[0]), sc, text=text)); continue
+                            els2, e3 = call(lambda: [str(x) for x in a2.elements])
+                            if e3 or els2 != els or np.abs(np.asarray(a2.positions) - np.array(xyz)).max() > 0 or [tuple(int(x) for x in b) for b in np.asarray(a2.bonds).reshape(-1, 2)] != bonds:
+                                out['violations'].append(viol('cml-load', 'history:content', '%s: elements %r, document says %r' % (rname, e3[0] if e3 else els2, els), sc, text=text))
                 key = 'bonds=%d' % len(bonds)
                 out['outcomes'][key] = out['outcomes'].get(key, 0) + 1
                 if bonds and sc['scheme'] > 0:
